@@ -28,9 +28,15 @@ INTS = [0, 1, -1, 2, 3, 7, 10, -10, 100, 255, 2 ** 31 - 1, -2 ** 31, 2 ** 53 + 1
         2 ** 53 + 3, -(2 ** 53) - 3, 2 ** 62 + 1, 2 ** 53 + 5]
 REALS = [0.0, -0.0, 1.0, -1.0, 0.5, -0.5, 1.5, 2.0, 3.0, 1e-300, -1e-300, 1e300, 0.1, 0.01, 100.0, 99.0, 101.0,
          float('inf'), float('-inf'), 2.5, 1e-9, 123456.789, -7.25, 10.0]
+# microsecond counts whose decimal fraction is not representable exactly, so that a conversion through float
+# (0.000249 * 1e6 = 248.99999999999997) loses one when truncated
+HARD_US = [u for u in list(range(1, 3000)) + [290000 + i for i in range(300)]
+           if int(float('0.%06d' % u) * 1000000) != u][:40]
 DATES = [datetime.datetime(2020, 1, 2), datetime.datetime(1999, 12, 31, 23, 59, 59),
          datetime.datetime(2020, 1, 2, 3, 4, 5, 678000), datetime.datetime(1970, 1, 1),
-         datetime.datetime(2038, 1, 19, 3, 14, 8), datetime.datetime(1900, 3, 1), datetime.datetime(2020, 1, 3)]
+         datetime.datetime(2038, 1, 19, 3, 14, 8), datetime.datetime(1900, 3, 1), datetime.datetime(2020, 1, 3)] + \
+        [datetime.datetime(2039, 5, 6, 7, 8, 9, u) for u in HARD_US[:6]] + \
+        [datetime.datetime(1890, 5, 6, 7, 8, 9, u) for u in HARD_US[6:9]]
 
 
 # ---------------------------------------------------------------- abstract columns
@@ -87,6 +93,9 @@ def normalise_column(col):
     elif t == 'date':
         if v == 'datetime64[s]':
             cells = [None if c is None else c.replace(microsecond=0) for c in cells]
+        elif v == 'datetime64[ms]':
+            # (the column stores milliseconds: what is in the frame is the truncated value)
+            cells = [None if c is None else c.replace(microsecond=c.microsecond // 1000 * 1000) for c in cells]
         elif v == 'dateobj':
             cells = [None if c is None else c.replace(hour=0, minute=0, second=0, microsecond=0) for c in cells]
         elif v == 'datetime64[ns]':
